@@ -343,11 +343,9 @@ def parser_tables(p):
     for m in p.list_decay_mother_names():
         if m in T:
             continue
-        rows = []
-        for t in p._find_decay_modes(m):
-            d = p._decay_mode_details(t, False)
-            rows.append({"bf": d["bf"], "fs": list(d["fs"]), "model": d["model"], "model_params": d["model_params"]})
-        T[m] = rows
+        from . import snapshot  # noqa: PLC0415
+
+        T[m] = [{"bf": r[0], "fs": list(r[1]), "model": r[2], "model_params": list(r[3])} for r in snapshot.tables_of_mother(p, m)]
     _TCACHE["key"], _TCACHE["T"] = key, T
     return T
 
